@@ -3718,6 +3718,10 @@ namespace bloch::runtime {
         } else if (auto assignExpr = dynamic_cast<AssignmentExpression*>(e)) {
             Value v = eval(assignExpr->value.get());
             assign(assignExpr->name, v);
+            // the value of 'x = e' is x: it has the static class of the slot, as the analyser
+            // types it ('k.o(x = new Dog())' with 'Animal x' is a call with an Animal)
+            if (v.type == Value::Type::Object)
+                return lookup(assignExpr->name);
             return v;
         } else if (auto memAssign = dynamic_cast<MemberAssignmentExpression*>(e)) {
             Value obj = eval(memAssign->object.get());
